@@ -42,7 +42,7 @@ pub fn uses_pred(op: Op) -> bool {
 }
 pub fn uses_th(op: Op) -> bool {
   uses_pred(op)
-    || matches!(op, Op::Map | Op::MapTo | Op::FirstOr | Op::LastOr | Op::DefaultIfEmpty | Op::ScanInitial | Op::ReduceInitial | Op::Contains | Op::OnErrorMap)
+    || matches!(op, Op::Map | Op::MapTo | Op::FirstOr | Op::LastOr | Op::DefaultIfEmpty | Op::ScanInitial | Op::ReduceInitial | Op::Contains | Op::OnErrorMap | Op::CollectInto)
 }
 
 pub fn draw_params(op: Op, max_n: u32, ctr: usize) -> P {
